@@ -5,7 +5,6 @@ VERIF = os.path.dirname(os.path.dirname(os.path.abspath(__file__)))
 sys.path.insert(0, VERIF)
 props = [json.loads(l) for l in open(os.path.join(VERIF, 'properties.jsonl'))]
 NA = {
-    'C17': 'a property of histories of next() calls under an advancing clock; the decidable structural part (guard/advance pairing) has behaviour-preserving variants a structural rule would flag, and the month step needs the C01 bijection (DESIGN section 5)',
 }
 checks, na = [], []
 for p in props:
